@@ -1946,6 +1946,11 @@ func (ls *LState) PCall(nargs, nret int, errfunc *LFunction) (err error) {
 	}()
 
 	ls.Call(nargs, nret)
+	if ls.ctx != nil && ls.ctx.Err() != nil {
+		// a call whose last instruction is a tail call of a host function (return pcall(f)) leaves no
+		// further instruction to notice that the context is done: the protected call reports it
+		ls.RaiseError(ls.ctx.Err().Error())
+	}
 
 	return
 }
